@@ -121,6 +121,18 @@ Theorem C09_blank_behind_a_token_keeps_the_token_stream : forall c, is_blank c =
   token_end gen_literals x v -> forall f, List.length (x ++ v) <= f -> lex gen_literals (S f) (x ++ c :: v) = lex gen_literals f (x ++ v).
 Proof. intros c Hc. exact (lex_blank_at_token_end gen_literals C09_literal_table_has_no_blanks c Hc). Qed.
 Print Assumptions C09_blank_behind_a_token_keeps_the_token_stream.
+(* the ends of tokens, computed by the scanner itself (block comments skipped), meet the hypothesis: for every text and every such
+   position a blank written there leaves the token stream unchanged *)
+Theorem C09_computed_token_ends : forall fuel s p, In p (ends gen_literals fuel s) -> token_end gen_literals (firstn p s) (skipn p s).
+Proof. exact (ends_are_token_ends gen_literals). Qed.
+Print Assumptions C09_computed_token_ends.
+Theorem C09_blank_at_any_token_end : forall c, is_blank c = true -> forall s p, In p (ends gen_literals (List.length s) s) ->
+  lex gen_literals (S (List.length s)) (firstn p s ++ c :: skipn p s) = lex gen_literals (List.length s) s.
+Proof. intros c Hc. exact (lex_blank_at_any_token_end gen_literals C09_literal_table_has_no_blanks c Hc). Qed.
+Print Assumptions C09_blank_at_any_token_end.
+Example C09_token_ends_example :
+  ends gen_literals 20 (list_ascii_of_string "x<=5&&y/*c*/+z1") = [1; 3; 4; 6; 7; 13; 15].
+Proof. vm_compute. reflexivity. Qed.
 (* the hypotheses are met by texts written without any blank: behind "<=" in "x<=5&&y" ("x" is a token, then "<=" ends at position 3) *)
 Example C09_token_end_example :
   token_end gen_literals (list_ascii_of_string "x<="%string) (list_ascii_of_string "5&&y"%string) /\
